@@ -419,6 +419,11 @@ func divideEntries(entries []*entry, minPartsNum int) (set [][]*entry) {
 
 var errNotFound = errors.New("not found")
 
+// missedPrioritizedMu guards the slices passed to WithAllowPrioritizeNotFound. One option
+// value (and so one slice) can be shared by Builds that run concurrently, e.g. when the
+// layers of an image are converted in parallel with common options.
+var missedPrioritizedMu sync.Mutex
+
 // sortEntries reads the specified tar blob and returns a list of tar entries.
 // If some of prioritized files are specified, the list starts from these
 // files with keeping the order specified by the argument.
@@ -436,7 +441,9 @@ func sortEntries(in io.ReaderAt, prioritized []string, missedPrioritized *[]stri
 	for _, l := range prioritized {
 		if err := moveRec(l, intar, sorted, picked); err != nil {
 			if errors.Is(err, errNotFound) && missedPrioritized != nil {
+				missedPrioritizedMu.Lock()
 				*missedPrioritized = append(*missedPrioritized, l)
+				missedPrioritizedMu.Unlock()
 				continue // allow not found
 			}
 			return nil, fmt.Errorf("failed to sort tar entries: %w", err)
